@@ -153,7 +153,7 @@ func members(c Container) (list []string, named []string) {
 // universe of keys the map-law oracles observe
 var universe = func() []key {
 	var u []key
-	for i := -3; i <= 14; i++ {
+	for i := -3; i <= 80; i++ {
 		u = append(u, intKey(i))
 	}
 	u = append(u, intKey(1000), intKey(-1000), intKey(100), intKey(-5))
@@ -185,7 +185,21 @@ func mapStr(m map[string]string) string {
 	return sb.String()
 }
 
+var inUniverse = func() map[string]bool {
+	m := map[string]bool{}
+	for _, k := range universe {
+		m[k.text] = true
+	}
+	return m
+}()
+
+// sameMap compares an observed snapshot with the expected map restricted to the universe
 func sameMap(a, b map[string]string) bool {
+	for k := range b {
+		if !inUniverse[k] {
+			delete(b, k)
+		}
+	}
 	if len(a) != len(b) {
 		return false
 	}
@@ -399,6 +413,10 @@ func (s *suite) mutate(i int) {
 	var op, out string
 	expect := map[string]string(nil) // expected snapshot if the op is a pure map update
 	kind := s.r.Intn(100)
+	if !ro && s.r.Intn(25) == 0 {
+		s.fillAndSort(i)
+		return
+	}
 	switch {
 	case kind < 14:
 		v := s.genVal()
@@ -600,6 +618,54 @@ func (s *suite) mutate(i int) {
 		s.fail("maplaw-"+sig, fmt.Sprintf("%s on %s: observable map is {%s} expected {%s}", op, dumpBefore, mapStr(after), mapStr(expect)))
 	}
 	s.checkOthers(i, othersBefore, op)
+	s.checkInvariants(i)
+	s.q(fmt.Sprintf("dump %d", i), dump(c))
+}
+
+// fillAndSort grows the list to 13-60 members drawn from few comparison classes with many
+// distinguishable ties (tagged values that compare equal but are not Equal) and sorts it, with
+// the default comparison or with the lt callable. Go's unstable pdqsort is an insertion sort
+// (stable) up to 12 elements, so stability is only observable on longer lists.
+func (s *suite) fillAndSort(i int) {
+	c := s.slots[i]
+	ob := c.ToObject()
+	target := 13 + s.r.Intn(48)
+	classes := 1 + s.r.Intn(4)
+	for c.ListSize() < target {
+		v := val{k: s.r.Intn(classes), t: 1 + s.r.Intn(9)}
+		if s.r.Intn(6) == 0 {
+			v.t = 0
+		}
+		op := fmt.Sprintf("add %d %s", i, v)
+		out := outcome(lib.Catch(func() { c.Add(mkVal(v)) }))
+		if out == "" {
+			out = "ok"
+		}
+		s.q(op, out)
+	}
+	s.q(fmt.Sprintf("dump %d", i), dump(c))
+	listBefore := listVals(c)
+	var op, out string
+	if s.r.Intn(3) == 0 {
+		op = fmt.Sprintf("sortlt %d", i)
+		out = outcome(lib.Catch(func() { ob.Sort(s.th, ltDesc()) }))
+		if out == "" {
+			s.checkSorted(c, listBefore, func(a, b val) int { return b.k - a.k }, op)
+		}
+		s.t.Count("op=fill+sort-lt")
+	} else {
+		op = fmt.Sprintf("sort %d", i)
+		out = outcome(lib.Catch(func() { ob.Sort(nil, False) }))
+		if out == "" {
+			s.checkSorted(c, listBefore, cmpVal, op)
+		}
+		s.t.Count("op=fill+sort")
+	}
+	if out == "" {
+		out = "ok"
+	}
+	s.q(op, out)
+	s.t.Count(fmt.Sprintf("sorted-list-size>12"))
 	s.checkInvariants(i)
 	s.q(fmt.Sprintf("dump %d", i), dump(c))
 }
